@@ -47,6 +47,12 @@ func (p *Program) scopeProv(fd *ast.FuncDecl, e ast.Expr, depth int, visiting ma
 			_, isMap := info.TypeOf(cl).Underlying().(*types.Map)
 			return isMap
 		}
+		// scope := opts.newScope(): a helper that returns a map it has just made
+		if call, ok := x.(*ast.CallExpr); ok {
+			if f := Callee(info, call); f != nil && p.freshResult(f) {
+				return true
+			}
+		}
 		return false
 	}
 	ast.Inspect(fd.Body, func(n ast.Node) bool {
@@ -69,6 +75,10 @@ func (p *Program) scopeProv(fd *ast.FuncDecl, e ast.Expr, depth int, visiting ma
 	if madeHere {
 		if declName(fd) == "Compile" && fd.Recv != nil {
 			return true, "the map allocated by Compile"
+		}
+		// a helper of Compile (one that did not exist on the reviewed tree) that makes the scope and hands it back
+		if fobj := FuncObj(pkg, fd); fobj != nil && !p.recordedFunc(fobj) && p.freshResult(fobj) {
+			return true, "the map a helper of Compile makes"
 		}
 		return false, "a map allocated in " + declName(fd) + ", not Compile's scope"
 	}
@@ -235,21 +245,34 @@ func ruleC06(p *Program, r *Run) {
 	}
 	fn := FuncName(pkg, compile)
 	r.Saw(fn)
-	letMode := false
-	ast.Inspect(letCase, func(nn ast.Node) bool {
-		if cl, ok := nn.(*ast.CompositeLit); ok && types.Identical(info.TypeOf(cl), ctxT) {
-			if m := litField(info, cl, "mode"); m != nil && constName(info, m) == "letExprMode" {
-				letMode = true
+	// the code of the let case: the clause and the helpers it was split into
+	letRegion := p.regionOf(pkg, letCase)
+	letFn := p.FuncAt(letCase.Pos()) // the function the case sits in (Compile, or a helper of it)
+	inLetRegion := func(fdx *ast.FuncDecl, n ast.Node) bool {
+		for _, root := range letRegion {
+			if n.Pos() >= root.Pos() && n.End() <= root.End() {
+				return true
 			}
 		}
-		return true
-	})
+		return false
+	}
+	letMode := false
+	for _, root := range letRegion {
+		ast.Inspect(root, func(nn ast.Node) bool {
+			if cl, ok := nn.(*ast.CompositeLit); ok && types.Identical(info.TypeOf(cl), ctxT) {
+				if m := litField(info, cl, "mode"); m != nil && constName(info, m) == "letExprMode" {
+					letMode = true
+				}
+			}
+			return true
+		})
+	}
 	r.Check(letMode, "C06/let-mode", fn+" let values are written in let mode", p.Pos(letCase.Pos()), "context has mode: letExprMode (only earlier bindings and constants allowed; C13/gate-let)", "the value of a let statement is not written in let mode: it could refer to columns")
 
 	// the hole that writes the let value: class Closed, query variable nil, stored under the let's own name afterwards
 	ct := g.classTable()
 	var exprVar types.Object
-	ast.Inspect(compile.Body, func(nn ast.Node) bool {
+	ast.Inspect(letFn.Body, func(nn ast.Node) bool {
 		if id, ok := nn.(*ast.Ident); ok {
 			if v, ok := info.Defs[id].(*types.Var); ok && TypeStr(v.Type()) == "*parser.TabularExpr" && exprVar == nil {
 				exprVar = v
@@ -260,8 +283,9 @@ func ruleC06(p *Program, r *Run) {
 	found := false
 	worst, onlyContent, queryNil := clClosed, true, true
 	var holePos token.Pos
+	holeInHelper := false
 	for _, o := range g.occs {
-		if o.Ev.Func != compile || o.Ev.Kind != "HOLE" || o.Ev.Call.Pos() < letCase.Pos() || o.Ev.Call.End() > letCase.End() {
+		if o.Ev.Kind != "HOLE" || !inLetRegion(o.Ev.Func, o.Ev.Call) {
 			continue
 		}
 		found = true
@@ -270,10 +294,24 @@ func ruleC06(p *Program, r *Run) {
 		if o.Prev != -1 {
 			onlyContent = false
 		}
+		if o.Ev.Func != letFn {
+			holeInHelper = true // decided at the helper's call in the let case, below
+			continue
+		}
 		if exprVar != nil {
 			if f := o.St.Get(p.ObjKey(exprVar)); f == nil || f.Nil != 1 {
 				queryNil = false
 			}
+		}
+	}
+	if holeInHelper && exprVar != nil {
+		// the value is written by a helper: at every call in the let case to a function that can reach the
+		// expression writer, the query variable is known nil
+		ac := &afterQueryClient{letCase: letCase, queryVar: exprVar, reaches: p.reachesWriter()}
+		ae := NewEngine(p, pkg, letFn, ac)
+		ae.Run(nil)
+		if len(ae.Errs) > 0 || ac.calls == 0 || ac.bad > 0 {
+			queryNil = false
 		}
 	}
 	if found {
@@ -294,15 +332,11 @@ func ruleC06(p *Program, r *Run) {
 		if !ok {
 			return true
 		}
-		if ok2, _ := p.scopeProvenance(compile, ix.X, 0); !ok2 {
+		if ok2, _ := p.scopeProvenance(letFn, ix.X, 0); !ok2 {
 			return true
 		}
-		call, ok := as.Rhs[0].(*ast.CallExpr)
-		if !ok {
-			return true
-		}
-		sel, ok := call.Fun.(*ast.SelectorExpr)
-		if !ok || sel.Sel.Name != "String" || !isBuilder(info, sel.X) {
+		// the text of a checked builder (directly, through a temporary, or returned by a helper that wrote it)
+		if !p.assembledSQL(as.Rhs[0], 0) {
 			return true
 		}
 		// key is the let's own name
@@ -317,7 +351,13 @@ func ruleC06(p *Program, r *Run) {
 
 	// parameters are copied into the scope
 	copied := false
-	ast.Inspect(compile.Body, func(nn ast.Node) bool {
+	compileRegion := p.regionOf(pkg, compile.Body)
+	inspectNodes := func(f func(ast.Node) bool) {
+		for _, root := range compileRegion {
+			ast.Inspect(root, f)
+		}
+	}
+	inspectNodes(func(nn ast.Node) bool {
 		rs, ok := nn.(*ast.RangeStmt)
 		if !ok || rs.Tok != token.DEFINE {
 			return true
@@ -328,7 +368,7 @@ func ruleC06(p *Program, r *Run) {
 		ast.Inspect(rs.Body, func(m ast.Node) bool {
 			if as, ok := m.(*ast.AssignStmt); ok && len(as.Lhs) == 1 {
 				if ix, ok := as.Lhs[0].(*ast.IndexExpr); ok && objOf(info, ix.Index) == objOf(info, rs.Key) && objOf(info, as.Rhs[0]) == objOf(info, rs.Value) {
-					if ok2, _ := p.scopeProvenance(compile, ix.X, 0); ok2 {
+					if ok2, _ := p.scopeProvenance(p.FuncAt(ix.Pos()), ix.X, 0); ok2 {
 						copied = true
 					}
 				}
@@ -338,7 +378,7 @@ func ruleC06(p *Program, r *Run) {
 		return true
 	})
 	// the standard-library spelling of the same loop: maps.Copy(scope, opts.Parameters)
-	ast.Inspect(compile.Body, func(nn ast.Node) bool {
+	inspectNodes(func(nn ast.Node) bool {
 		call, ok := nn.(*ast.CallExpr)
 		if !ok || len(call.Args) != 2 {
 			return true
@@ -349,10 +389,79 @@ func ruleC06(p *Program, r *Run) {
 		if f := selField(info, call.Args[1]); f == nil || f.Name() != "Parameters" {
 			return true
 		}
-		if ok2, _ := p.scopeProvenance(compile, call.Args[0], 0); ok2 {
+		if ok2, _ := p.scopeProvenance(p.FuncAt(call.Pos()), call.Args[0], 0); ok2 {
 			copied = true
 		}
 		return true
 	})
 	r.Check(copied, "C06/copy", fn+" parameters enter the scope", p.Pos(compile.Pos()), "every parameter is copied into the fresh scope map (verbatim)", "the parameters are not copied key by key into the scope map")
+}
+
+// afterQueryClient: inside the let case, every call to a function that can reach the expression writer happens
+// where the query variable is known nil.
+type afterQueryClient struct {
+	BaseClient
+	InlinePredicates
+	letCase    ast.Node
+	queryVar   types.Object
+	reaches    map[*types.Func]bool
+	calls, bad int
+}
+
+func (c *afterQueryClient) PreCall(e *Engine, st *State, call *ast.CallExpr, callee *types.Func) *State {
+	if callee == nil || !c.reaches[callee] || !e.Reporting() || len(e.Frames()) > 0 {
+		return nil
+	}
+	if call.Pos() < c.letCase.Pos() || call.End() > c.letCase.End() {
+		return nil
+	}
+	c.calls++
+	if f := st.Get(e.objKey(c.queryVar)); f == nil || f.Nil != 1 {
+		c.bad++
+	}
+	return nil
+}
+
+// reachesWriter: the functions of the compiler from which the recursive expression writer can be reached.
+func (p *Program) reachesWriter() map[*types.Func]bool {
+	if p.reachWriter != nil {
+		return p.reachWriter
+	}
+	pkg := p.PQL
+	we := FuncObj(pkg, p.MustFunc(pkg, "writeExpression"))
+	calls := map[*types.Func][]*types.Func{}
+	for _, fd := range AllFuncs(pkg) {
+		from := FuncObj(pkg, fd)
+		ast.Inspect(fd.Body, func(n ast.Node) bool {
+			switch v := n.(type) {
+			case *ast.CallExpr:
+				if f := Callee(p.Info, v); f != nil {
+					calls[from] = append(calls[from], f)
+				}
+			case *ast.Ident:
+				if f, ok := p.Info.Uses[v].(*types.Func); ok && f.Pkg() == pkg.Types {
+					calls[from] = append(calls[from], f)
+				}
+			}
+			return true
+		})
+	}
+	reaches := map[*types.Func]bool{we: true}
+	for changed := true; changed; {
+		changed = false
+		for from, tos := range calls {
+			if reaches[from] {
+				continue
+			}
+			for _, t := range tos {
+				if reaches[t] {
+					reaches[from] = true
+					changed = true
+					break
+				}
+			}
+		}
+	}
+	p.reachWriter = reaches
+	return reaches
 }
